@@ -36,6 +36,13 @@ CHECKS = {
         "Trusted: reference model in mc/props/c05.py, foamdict reader. Box corners only; displacements 0.4 TOL / 3 TOL.",
         "DESIGN.md 5 C05",
     ),
+    "C10": (
+        "model_checking",
+        "explicit-state BFS over Face re-indexing histories (invert/shift/reorient) to the fixed point of the reachable state set with invariants on every transition, plus exhaustive side/edge/corner addressing tables checked in the written dictionary against blockMesh's hex convention",
+        "Part A: all reachable (point order, edge order) states of three general quads under the full operation alphabet, every transition checked (same points, every edge datum between its two points, reorient puts the nearest point first, invert flips the normal). Part B: 6 sides + all side pairs (set_patch), 6 sides x flags (project_side), all 56 ordered corner pairs (project_edge: 24 valid, 32 invalid must raise), 8 corners, 4 side edges, get_face, get_patches_at_corner, in 2-8 frames.",
+        "Trusted: corner/side tables of mc/blockmesh_ref.py, foamdict reader.",
+        "DESIGN.md 5 C10",
+    ),
     "C02": (
         "model_checking",
         "stateless model checking of the implementation: choice-point explorer over set iteration orders (iterative deviation bounding) x exhaustive insertion orders / corner numberings / chop placements of small lattice assemblies, edge-family reference model",
